@@ -10,7 +10,9 @@ import (
 	"math/rand"
 	"net/http"
 	"net/http/httptest"
+	"os"
 	"regexp"
+	"runtime"
 	"strings"
 	"sync"
 	"sync/atomic"
@@ -194,7 +196,7 @@ func (c20) Plan(tier string, seed int64) []core.Scenario {
 	// every pattern x order at least once with a mid-size payload
 	for pat := 0; pat < pCount; pat++ {
 		for order := 0; order < 3; order++ {
-			out = append(out, core.Sc("reader").WithN("len", 6+pat).WithN("content", pat%4).WithN("pat", pat).WithN("order", order).WithN("conc", 1).WithN("rk", (pat+order)%6).WithS("transport", []string{"http", "ws"}[order%2]))
+			out = append(out, core.Sc("reader").WithN("len", 6+pat).WithN("content", pat%4).WithN("pat", pat).WithN("order", order).WithN("conc", 1).WithN("rk", (pat+order)%8).WithN("addr", (pat+order)%3).WithS("transport", []string{"http", "ws"}[order%2]))
 		}
 	}
 	for i := 0; i < n; i++ {
@@ -202,7 +204,7 @@ func (c20) Plan(tier string, seed int64) []core.Scenario {
 		if tier != "thorough" && li >= len(c20Lens)-2 && i%8 != 0 {
 			li = rng.Intn(len(c20Lens) - 2)
 		}
-		out = append(out, core.Sc("reader").WithN("len", li).WithN("content", rng.Intn(4)).WithN("pat", rng.Intn(pCount)).WithN("order", rng.Intn(3)).WithN("conc", []int{1, 1, 4, 16}[rng.Intn(4)]).WithN("rk", rng.Intn(6)).WithS("transport", []string{"http", "ws"}[rng.Intn(2)]))
+		out = append(out, core.Sc("reader").WithN("len", li).WithN("content", rng.Intn(4)).WithN("pat", rng.Intn(pCount)).WithN("order", rng.Intn(3)).WithN("conc", []int{1, 1, 4, 16}[rng.Intn(4)]).WithN("rk", rng.Intn(8)).WithN("addr", rng.Intn(3)).WithS("transport", []string{"http", "ws"}[rng.Intn(2)]))
 	}
 	ns := 2
 	if tier == "thorough" {
@@ -274,7 +276,7 @@ func c20Burst(sc core.Scenario, r *core.R, cl *readerClient, mu *sync.Mutex, upl
 	r.Sample(map[string]interface{}{"burst": true, "workers": workers, "calls_each": calls, "transport": sc.Str("transport"), "completed": atomic.LoadInt32(&total)})
 }
 
-var c20ReaderKinds = []string{"bytes.Reader", "one byte per read (first 64 KiB)", "short random reads", "MultiReader of pieces", "io.Pipe", "strings.Reader"}
+var c20ReaderKinds = []string{"bytes.Reader", "one byte per read (first 64 KiB)", "short random reads", "MultiReader of pieces", "io.Pipe", "strings.Reader", "*os.File positioned past a header", "io.SectionReader already read in part"}
 
 type dribble struct {
 	data []byte
@@ -314,6 +316,8 @@ func callerReader(kind int, data []byte, seed int64) io.Reader {
 	r := callerReader0(kind, data, seed)
 	switch r.(type) {
 	case *bytes.Reader, *strings.Reader: // net/http takes the upload's Content-Length from these: keep them as they are
+		return r
+	case *os.File, *io.SectionReader: // seekable readers keep their own type: what travels starts at their current position
 		return r
 	}
 	return progressReader{r}
@@ -358,6 +362,24 @@ func callerReader0(kind int, data []byte, seed int64) io.Reader {
 		return pr
 	case 5:
 		return strings.NewReader(string(data))
+	case 6:
+		// a file whose first bytes (a header the caller has consumed already) are not part of the payload
+		f, err := os.CreateTemp("", "vh-c20-*")
+		if err != nil {
+			return bytes.NewReader(data)
+		}
+		os.Remove(f.Name())
+		hdr := []byte("HEADER-THE-CALLER-ALREADY-READ\n")
+		f.Write(hdr)
+		f.Write(data)
+		f.Seek(int64(len(hdr)), io.SeekStart)
+		runtime.SetFinalizer(f, func(f *os.File) { f.Close() })
+		return f
+	case 7:
+		hdr := []byte("MAGIC123")
+		sr := io.NewSectionReader(bytes.NewReader(append(append([]byte{}, hdr...), data...)), 0, int64(len(hdr)+len(data)))
+		io.ReadFull(sr, make([]byte, len(hdr)))
+		return sr
 	}
 	return bytes.NewReader(data)
 }
@@ -479,7 +501,7 @@ func (c20) Run(sc core.Scenario) core.Result {
 	}()
 	base := ts.Listener.Addr().String()
 	var cl readerClient
-	closer, err := jsonrpc.NewMergeClient(context.Background(), tr+"://"+base+"/rpc/v0", "R", []interface{}{&cl}, nil, httpio.ReaderParamEncoder("http://"+base+"/rpc/streams/v0/push"))
+	closer, err := jsonrpc.NewMergeClient(context.Background(), tr+"://"+base+"/rpc/v0", "R", []interface{}{&cl}, nil, httpio.ReaderParamEncoder("http://"+base+"/rpc/streams/v0/push"+[]string{"", "/", "?token=t0k"}[sc.I("addr")]))
 	if err != nil {
 		r.Inconclusive("client: %v", err)
 		return r.Result()
@@ -519,7 +541,7 @@ func (c20) Run(sc core.Scenario) core.Result {
 	}
 	done := make(chan struct{})
 	go func() { wg.Wait(); close(done) }()
-	label := fmt.Sprintf("%s len=%d content=%d pattern=%s order=%d conc=%d caller-reader=%s", tr, ln, content, c20PatName[pat], order, conc, c20ReaderKinds[sc.I("rk")])
+	label := fmt.Sprintf("%s len=%d content=%d pattern=%s order=%d conc=%d caller-reader=%s push-address=%s", tr, ln, content, c20PatName[pat], order, conc, c20ReaderKinds[sc.I("rk")], []string{"plain", "trailing slash", "with query"}[sc.I("addr")])
 	if !core.WaitProgress(done, 4*core.Grace, func() int64 { return atomic.LoadInt64(&c20Progress) }) {
 		r.Violate("reader-call-hang", "%s: reader-carrying call(s) never returned", label)
 		return r.Result()
@@ -584,7 +606,7 @@ func (c20) Run(sc core.Scenario) core.Result {
 	if ln > 1<<19 && sc.I("rk") == 1 {
 		lc += "(1B reads)"
 	}
-	r.Key(fmt.Sprintf("%s len=%s content=%d pat=%d order=%d conc=%d reader=%d", tr, lc, content, pat, order, conc, sc.I("rk")), ln > 0 || pat >= pPastEOF)
+	r.Key(fmt.Sprintf("%s len=%s content=%d pat=%d order=%d conc=%d reader=%d addr=%d", tr, lc, content, pat, order, conc, sc.I("rk"), sc.I("addr")), ln > 0 || pat >= pPastEOF)
 	r.Obs("reader_calls", int64(conc))
 	r.Obs("bytes_streamed", int64(conc*ln))
 	r.Sample(map[string]interface{}{"transport": tr, "length": ln, "content": []string{"random", "zeros", "0xFF", "cycle"}[content], "pattern": c20PatName[pat], "order": []string{"free", "upload first", "rpc first"}[order], "concurrent_calls": conc, "caller_reader": c20ReaderKinds[sc.I("rk")]})
